@@ -270,8 +270,28 @@ def reference(case, values, cond_limit=1e6):
                     info.update(full=False, labels=labels, clp=np.array(clps), wres=np.array(wres).T, matrices=mats, penalties=p)
                 out["datasets"][d["label"]] = info
         else:
-            # alignment with tolerance 0: aligned axis = sorted union of exactly equal values
-            aligned = sorted({g for d in dss for g in d["global_axis"]})
+            # alignment by the reference model of C09 (vlib/oracle/c09_align.py): sequential, in group order
+            from vlib.oracle import c09_align
+
+            tol = float(case.get("clp_link_tolerance", 0.0))
+            method = case.get("clp_link_method", "nearest")
+            aligned_vals = []
+            mapping = {}  # dataset label -> list of aligned targets (one per own global index)
+            for k, d in enumerate(dss):
+                if k == 0:
+                    targets = [float(g) for g in d["global_axis"]]
+                else:
+                    targets = []
+                    for v in d["global_axis"]:
+                        opts, _ = c09_align.admissible_targets(float(v), aligned_vals, tol, method)
+                        if len(opts) != 1:
+                            raise Ambiguous("alignment decision left open by the statement (float-fragile)")
+                        targets.append(float(opts[0]))
+                    if len(set(targets)) != len(targets):
+                        raise Ambiguous("alignment refused (two points of one dataset on one target) - C09 decides")
+                mapping[d["label"]] = targets
+                aligned_vals = sorted(set(aligned_vals) | set(targets))
+            aligned = aligned_vals
             per_ds = {}
             for d in dss:
                 data, _ = dataset_arrays(d)
@@ -280,10 +300,10 @@ def reference(case, values, cond_limit=1e6):
                 per_ds[d["label"]] = dict(data=data, W=W, labels=labels, mats=mats, scale=values[d["scale"]] if d.get("scale") else 1.0,
                                           clp=[None] * len(d["global_axis"]), wres=[None] * len(d["global_axis"]))
                 out["datasets"][d["label"]] = {"weight": W, "weight_kind": wkind, "scale": per_ds[d["label"]]["scale"], "linked": True,
-                                               "full": False, "labels": labels, "matrices": mats}
+                                               "full": False, "labels": labels, "matrices": mats, "aligned_targets": mapping[d["label"]]}
             clps, lpi = [], []
             for g in aligned:
-                members = [(d, d["global_axis"].index(g)) for d in dss if g in d["global_axis"]]
+                members = [(d, mapping[d["label"]].index(g)) for d in dss if g in mapping[d["label"]]]
                 full_labels = []
                 for d, _ in members:
                     for l in per_ds[d["label"]]["labels"]:
